@@ -353,6 +353,7 @@ def run(ctx, R):
     if fv is None:
         R.fail("r5", "anchor", "-", "fill_in_query_variables not found")
     else:
+        variable_type_table(ctx, R, fv)
         fields = {"%s.%s" % ((n.get("adt") or "").split("::")[-1], n["name"]) for n in walk(fv["body"]) if n.get("k") == "field"}
         for need in ("IRVertex.filters", "IRFold.post_filters", "IRQueryComponent.folds", "IRFold.component"):
             R.check(need in fields, "r5", "reads/%s" % need, C.loc(fv["sp"]), "variable collection does not read %s: variable uses there go unrecorded" % need)
@@ -365,3 +366,80 @@ def run(ctx, R):
                 if a["pat"].get("variant") == "None":
                     okerr = any(c.get("name") == "push" for c in calls_in(a["body"]))
         R.check(okerr, "r5", "intersect-failure-is-error", C.loc(fv["sp"]), "a failed type intersection must be pushed as an error")
+
+
+def variable_type_table(ctx, R, fv):
+    """r5 (semantic): fill_in_query_variables is abstractly evaluated (bit-level Type representation) on components in which
+    one variable is used at two places - two vertices, a vertex and a fold's count filter, a vertex and a vertex inside a
+    fold - with every ordered pair of inferred types of list depth <= 1 (+ some of depth 2): the recorded type must be the
+    greatest common subtype of the uses (order-independent), or an IncompatibleVariableTypeRequirements error when none exists."""
+    from . import tybits as B
+    C = ctx.core
+    I = B.intrinsics()
+
+    class EntryV:
+        def __init__(self, m, k):
+            self.m, self.k = m, k
+
+    def entry(ip, n, a):
+        return EntryV(A.deref(a[0]), a[1])
+
+    def or_insert_with(ip, n, a):
+        e = A.deref(a[0])
+        if e.m.get(e.k) is None:
+            e.m.insert(e.k, S.call_f(ip, a[1], []))
+        return A.Ref(lambda: e.m.get(e.k), lambda v: e.m.insert(e.k, v))
+    I["alloc::collections::btree::map::BTreeMap::<K, V, A>::entry"] = entry
+    I["alloc::collections::btree::map::entry::Entry::<'a, K, V, A>::or_insert_with"] = or_insert_with
+    I["alloc::string::ToString::to_string"] = lambda ip, n, a: "<text>"
+
+    def use(name, tv):
+        vref = A.Struct(IR + "VariableRef", {"variable_name": name, "variable_type": B.concrete(tv)})
+        return A.Enum(IR + "Operation", "Equals", [A.Struct(IR + "LocalField", {"field_name": "p", "field_type": B.concrete(INT_N)}),
+                                                   A.Enum(IR + "Argument", "Variable", [vref])])
+
+    def count_use(name, tv):
+        vref = A.Struct(IR + "VariableRef", {"variable_name": name, "variable_type": B.concrete(tv)})
+        return A.Enum(IR + "Operation", "GreaterThan", [COUNT(), A.Enum(IR + "Argument", "Variable", [vref])])
+    types = [t for t in T.all_types(bases=("Int",), max_depth=1)] + [T.listof(T.listof(T.named("Int", True), False), True), T.named("Float", False)]
+    bad = None
+    n = 0
+    try:
+        for t1, t2 in itertools.product(types, types):
+            for place in ("two vertices", "vertex then fold count filter", "vertex then vertex inside a fold"):
+                if place == "two vertices":
+                    comp = component(1, [vertex(1, [use("x", t1)]), vertex(2, [use("x", t2)])], edges=[(1, edge(1, 1, 2))])
+                elif place == "vertex then fold count filter":
+                    f = fold(2, 1, 3, component(3, [vertex(3)]))
+                    f.fields["post_filters"] = A.VecV([count_use("x", t2)])
+                    comp = component(1, [vertex(1, [use("x", t1)])], folds=[(2, f)])
+                else:
+                    f = fold(2, 1, 3, component(3, [vertex(3, [use("x", t2)])]))
+                    comp = component(1, [vertex(1, [use("x", t1)])], folds=[(2, f)])
+                variables = S.MapV()
+                ip = A.Interp(C, I, max_steps=200000)
+                res = A.deref(ip.call_fn(fv, [A.Ref(lambda variables=variables: variables, lambda v: None), comp]))
+                n += 1
+                want = T.meet(t1, t2)
+                rec = variables.get("x")
+                try:
+                    got = B.decode(rec) if rec is not None else None
+                except ValueError:
+                    got = None
+                if want is None:
+                    ok = res.variant == "Err"
+                else:
+                    ok = res.variant == "Ok" and got is not None and got.key() == want.key()
+                if not ok and bad is None:
+                    bad = {"uses": (repr(t1), repr(t2)), "where": place, "result": res.variant, "recorded": repr(got), "expected": repr(want) if want else "error"}
+    except A.Unsupported as e:
+        R.fail("r5", "unanalysable/table", C.loc(fv["sp"]), "abstract evaluation of fill_in_query_variables failed: %s (fail closed)" % e)
+        return
+    except A.PanicReached as e:
+        R.fail("r5", "panic/table", C.loc(fv["sp"]), "fill_in_query_variables panics: %s" % e.what)
+        return
+    R.floor("r5", "variable-use cases evaluated", n, 150)
+    R.check(bad is None, "r5", "recorded-type-is-meet-of-uses", C.loc(fv["sp"]),
+            "a variable used with the types %s (%s) is recorded as %s (result %s); every use requires the greatest common subtype %s - "
+            "otherwise ill-typed argument values are accepted for one of the uses" % (bad and bad["uses"], bad and bad["where"], bad and bad["recorded"],
+                                                                                   bad and bad["result"], bad and bad["expected"]), {"cases": n})
